@@ -165,3 +165,48 @@ def cached_payloads(module, cfg_text, tag, **kw):
         json.dump(dict(payloads=r.payloads, summary=summ), fh)
     os.replace(fn + '.tmp', fn)
     return r.payloads, summ
+
+
+def simulate_behaviours(module, cfg_text, num, depth, seed=1, workers=8, timeout=1800, obsvar='obs'):
+    """`tlc -simulate file=...`: one file per behaviour; the specification carries an observation variable
+    holding a JSON string per step.  Returns (list of behaviours = lists of decoded observations, summary);
+    cached by spec + cfg hash."""
+    key = spec_hash(module, cfg_text, 'SIMB', num, seed, depth)
+    d = os.path.join(CACHE, 'dumps')
+    os.makedirs(d, exist_ok=True)
+    fn = os.path.join(d, '%s-%s.json' % (module, key))
+    if os.path.exists(fn):
+        with open(fn) as fh:
+            obj = json.load(fh)
+        obj['summary']['cached'] = True
+        return fn, obj['payloads'], obj['summary']
+    out = os.path.join(CACHE, 'sim', uuid.uuid4().hex)
+    os.makedirs(out)
+    try:
+        per = max(1, num // workers)
+        r = run(module, cfg_text, workers=workers, simulate='file=%s/tr,num=%d' % (out, per), depth=depth, seed=seed, timeout=timeout)
+        if r.error or r.violation:
+            raise RuntimeError('TLC simulation failed for %s: %s %s\n%s' % (module, r.violation, r.error, r.out[-3000:]))
+        pat = re.compile(r'^/\\ %s = "(.*)"$' % obsvar)
+        behaviours = []
+        for name in sorted(os.listdir(out)):
+            steps = []
+            with open(os.path.join(out, name)) as fh:
+                for line in fh:
+                    m = pat.match(line.rstrip())
+                    if m and m.group(1) != 'init':
+                        steps.append(json.loads(json.loads('"' + m.group(1) + '"')))
+            if steps:
+                behaviours.append(steps)
+        summ = r.summary()
+        m = re.search(r'The number of states generated: (\d+)', r.out)
+        if m:
+            summ['generated'] = int(m.group(1))
+            summ['distinct'] = sum(len(b) for b in behaviours)
+        summ['behaviours'] = len(behaviours)
+        with open(fn + '.tmp', 'w') as fh:
+            json.dump(dict(payloads=behaviours, summary=summ), fh)
+        os.replace(fn + '.tmp', fn)
+        return fn, behaviours, summ
+    finally:
+        shutil.rmtree(out, ignore_errors=True)
